@@ -165,6 +165,8 @@ pub fn statement_cases() -> Vec<Case> {
         ("choice-count-turns", "Start {CHOICE_COUNT()} {TURNS()} {TURNS_SINCE(-> k)}.\n* a [{CHOICE_COUNT()}]\n    -> k\n=== k ===\n{TURNS_SINCE(-> k)}\n-> END\n"),
         ("thread-in-function", "Start {f()}.\n-> END\n=== function f() ===\n<- t\n~ return 1\n=== t ===\nThread.\n-> DONE\n"),
         ("list-global-literal", "LIST colors = red, (green), blue\nVAR c = (red, blue)\n{c}\n-> END\n"),
+        ("assign-void-function", "VAR g = 0\nStart.\n~ temp t = nothing()\n~ g = nothing()\nAfter {t} {g}.\n-> END\n=== function nothing() ===\n~ g = g\n"),
+        ("print-void-function", "Start {nothing()} {nothing() + 1}.\n-> END\n=== function nothing() ===\n~ return\n"),
         ("list-ops-mixed-origin", "LIST a = (a1), a2\nLIST b = (b1), b2\nVAR m = ()\n~ m = a + b\n{m} {LIST_COUNT(m)} {LIST_VALUE(m)} {m + 1} {m - 1} {LIST_INVERT(m)}\n{a < b} {a > b} {a == b} {LIST_RANGE(m, a1, b2)}\n-> END\n"),
     ];
     items
@@ -193,6 +195,7 @@ fn probes(prog: &Prog) -> Vec<Vec<Op>> {
         if let Some(k) = prog.plain_knots.first() {
             v.push(vec![Op::ChoosePath(k.clone(), true), Op::Cont]);
         }
+        v.push(vec![Op::ChoosePath("7".into(), true), Op::Cont]);
         return v;
     }
     let mut v = vec![vec![Op::Save], vec![Op::LoadFresh, Op::Cont], vec![Op::SwitchFlow("f1".into()), Op::Cont, Op::SwitchDefault, Op::Cont]];
@@ -200,6 +203,9 @@ fn probes(prog: &Prog) -> Vec<Vec<Op>> {
         v.push(vec![Op::ChoosePath(k.clone(), true), Op::Cont]);
         v.push(vec![Op::ChoosePath(k.clone(), false), Op::Cont]);
     }
+    // a host jump to a bare index (past the end of the root container) and into the middle of one
+    v.push(vec![Op::ChoosePath("7".into(), true), Op::Cont]);
+    v.push(vec![Op::ChoosePath("0.1".into(), false), Op::Cont]);
     for (f, np) in prog.functions.iter().take(2) {
         v.push(vec![Op::Eval(f.clone(), (0..*np).map(|_| crate::inst::Val::Int(1)).collect())]);
     }
